@@ -52,6 +52,10 @@ class Obs(Base):
         self._acc = {}
         self.opno = -1
 
+    def fail(self, key, what):
+        if all(k != key for k, _ in self.violations):      # one witness per kind of failure and history
+            super().fail(key, what)
+
     def acc(self, line):
         if not isinstance(line, str):
             return None
@@ -292,8 +296,9 @@ class C08Flush(Obs):
         if not ok:
             got = sent + held
             kind = "missing" if not got else "unexpected" if not want else "wrong"
-            self.fail(f"req-answer/{kind}", f"op {self.opno}: request {n};{c};2;{ack};{vt} must be answered with {want!r} "
-                                            f"({src}), sent {sent!r}, withheld {held!r}")
+            how = "answered (answer put on hold, node sleeps)" if n in self.pre_sleep else "answered at once"
+            self.fail(f"req-answer/{kind}", f"op {self.opno}: request {n};{c};2;{ack};{vt} must be {how} with {want!r} "
+                                            f"({src} value), sent {sent!r}, put on hold {held!r}")
 
     def on_wake(self, im, trk, n, line, sent, raised):
         if raised:
@@ -550,8 +555,9 @@ class C10Session(Obs):
         self.stats["set:reboot-" + ("requested" if want else "not-requested") + ("/withheld" if want and n in self.pre_sleep else "")] += 1
         if not ok:
             self.fail("reboot-request/" + ("missing" if want else "unexpected"),
-                      f"op {self.opno}: set message of node {n} (reboot window {'open' if want else 'closed'}): sent {sent!r}, "
-                      f"withheld {held!r}, required {want!r}")
+                      f"op {self.opno}: set message of node {n} (reboot window {'open' if want else 'closed'}, node "
+                      f"{'sleeps: answer goes on hold' if n in self.pre_sleep else 'awake'}): sent {sent!r}, put on hold {held!r}, "
+                      f"required {want!r}")
 
     # -- automaton state vs. the three stores --------------------------------------------------------
     def check_stores(self, im, op):
@@ -564,15 +570,9 @@ class C10Session(Obs):
             impl = (where[0][0],) + where[0][1] if where else None
             if len(where) > 1:
                 self.fail("stores/node-in-several", f"op {self.opno} {op!r}: node {n} is in {[k for k, _ in where]}")
-                self.dead = True
             elif impl != st:
                 self.fail("stores/state-differs", f"op {self.opno} {op!r}: node {n} session is {st!r} but the stores say {where!r}")
-                self.dead = True
-            if self.dead:
-                return
         for n, s in im.gw.sensors.items():
             if bool(s.reboot) != bool(self.reboot.get(n, False)):
                 self.fail("reboot-flag/differs", f"op {self.opno} {op!r}: node {n} reboot flag is {s.reboot} but the window is "
                                                  f"{'open' if self.reboot.get(n) else 'closed'}")
-                self.dead = True
-                return
